@@ -48,7 +48,7 @@ func (e *Engine) globalInitInt(pkgSuffix, name string) (int64, bool) {
 }
 
 func runC02(e *Engine, r *Report, tier string) {
-	r.Explanation = "C02, structural clauses. Decided: R1 in the tally the event is applied only on the branch `not (sum < required)`, `required` = <threshold constant> * get(0x39) / 100 with the constant's value 66, `sum` starts at 0 and only ever adds GetPower() of oracle records that were found for an address in the attestation's vote list (the not-found branch adds nothing), and GetPower is stake / power reduction; R2 a vote is recorded only for the oracle found through the bridger index (0x14) whose record (0x12) exists and is Online, the bridger being the claim's own; R3 signer identity — for the wrapper messages whose payload names its own bridger (MsgClaim, MsgConfirm) equality between the wrapper's signer field and the payload's bridger (mismatch -> error) dominates every success return of ValidateBasic (or the handler body), and every routed fx-core message declares a signer field that exists in its Go type; R4 every transaction-reachable function that stores an oracle record after setting Online=true, assigning DelegateAmount or creating the record refreshes the total power (0x39) on every success path afterwards, and the refresh sums GetPower over online oracles; R5 distinct voters — the vote append is guarded by a membership test of the appended oracle itself in the vote list whenever the per-oracle nonce can be deleted (decided as C01.R4); R6 the summed votes are votes for the very same event — every field of a claim that is executed is part of its hash through a value-preserving rendering, and vote, store and tally use one (nonce, hash) (decided as C03.R1/R3; the three hash-coverage findings recorded for C03 are known findings here as well). Not decided: `at least 66%` under integer truncation, stake distributions."
+	r.Explanation = "C02, structural clauses. Decided: R1 in the tally the event is applied only on the branch `not (sum < required)`, `required` = <threshold constant> * get(0x39) / 100 with the constant's value 66, `sum` starts at 0 and only ever adds GetPower() of oracle records that were found for an address in the attestation's vote list (the not-found branch adds nothing), and GetPower is stake / power reduction; R2 a vote is recorded only for the oracle found through the bridger index (0x14) whose record (0x12) exists and is Online, the bridger being the claim's own; R3 signer identity — for the wrapper messages whose payload names its own bridger (MsgClaim, MsgConfirm) equality between the wrapper's signer field and the payload's bridger (mismatch -> error) dominates every success return of ValidateBasic (or the handler body), and every routed fx-core message declares a signer field that exists in its Go type; R4 every transaction-reachable function that stores an oracle record after setting Online=true, assigning DelegateAmount or creating the record refreshes the total power (0x39) on every success path afterwards, and the refresh sums GetPower over online oracles; R5 distinct voters — the vote append is guarded by a membership test of the appended oracle itself in the vote list whenever the per-oracle nonce can be deleted (decided as C01.R4); R6 the summed votes are votes for the very same event — every field of a claim that is executed is part of its hash through a value-preserving rendering, and vote, store and tally use one (nonce, hash) (decided as C03.R1/R3; the three hash-coverage findings recorded for C03 are known findings here as well). R7 the bridger index through which a voter is resolved agrees with the oracle records (the 0x14 obligations of C13.R1: co-written, re-keyed on edit, deleted under the record's own bridger on unbond). Not decided: `at least 66%` under integer truncation, stake distributions."
 	r.Rule("R1", "quorum: apply iff sum(power of found voters) >= 66 * total(0x39) / 100", 5, "")
 	r.Rule("R2", "vote admission: bridger -> oracle (0x14, 0x12) found and Online; vote recorded for that oracle", 4, "")
 	r.Rule("R3", "signer identity: wrapper signer == payload bridger; signer fields exist", 3, "proto messages with cosmos.msg.v1.signer")
@@ -60,6 +60,17 @@ func runC02(e *Engine, r *Report, tier string) {
 	for _, o := range sub03.Obls {
 		if o.Rule == "R1" || o.Rule == "R3" {
 			r.add("R6", "C03."+o.Rule+" "+o.Construct, o.Status, o.Pos, o.Detail)
+		}
+	}
+	// R7: "acting through its registered bridger" relies on the bridger index (0x14) agreeing with the records: every
+	// obligation C13.R1 decides about that index (created with the record, re-keyed on edit, deleted under the record's own
+	// bridger on unbond, no other writer) is an obligation here
+	r.Rule("R7", "the bridger index (0x14) through which a voter is resolved agrees with the oracle records (C13.R1 for 0x14)", 3, "C13 obligations")
+	sub13 := NewReport("C13", "other")
+	runC13(e, sub13, tier)
+	for _, o := range sub13.Obls {
+		if o.Rule == "R1" && (strings.Contains(o.Construct, "0x14") || strings.Contains(o.Construct, "(14)") || strings.Contains(strings.ToLower(o.Construct), "bridger")) {
+			r.add("R7", "C13.R1 "+o.Construct, o.Status, o.Pos, o.Detail)
 		}
 	}
 	sub01 := NewReport("C01", "other")
